@@ -69,7 +69,8 @@ impl Sess {
     fn exec(&mut self, op: Op, viol: &mut Vec<String>) -> String {
         match op {
             Op::Alloc(sz, z) => {
-                let layout = Layout::from_size_align(sz, 1).unwrap();
+                // alignments 1..16, chosen by the size (the accounting is by requested size, whatever the alignment)
+                let layout = Layout::from_size_align(sz, 1usize << (sz % 5)).unwrap();
                 let p = unsafe { if z { self.a.alloc_zeroed(layout) } else { self.a.alloc(layout) } };
                 if p.is_null() {
                     format!("null max={}", self.a.get_max())
@@ -396,6 +397,43 @@ pub fn run(o: &Opts) -> i32 {
             cops += concurrent(1 << 16, n, if o.thorough { 40 } else { 15 }, 400, o.seed * 1000 + r as u64 + n as u64 * 31, &mut cviol);
             cruns += 1;
         }
+    }
+    // 3a. the peak while several threads allocate at the same instant: all blocks are live when the peak is read,
+    //     so it must be at least their total (threads are released together by spinning on one counter)
+    let cores = std::thread::available_parallelism().map(|x| x.get()).unwrap_or(2);
+    for &n in [2usize, 3, 4].iter().filter(|n| **n < cores.max(3)) {
+        use std::sync::atomic::{AtomicUsize, Ordering::SeqCst};
+        // (spinning, with a yield now and then so that the run also finishes on a machine with fewer cores)
+        fn wait_for(c: &AtomicUsize, at_least: usize) { let mut k = 0u32; while c.load(SeqCst) < at_least { k += 1; if k % 2048 == 0 { std::thread::yield_now(); } else { std::hint::spin_loop(); } } }
+        let a = Arc::new(Alloc::new(1 << 30));
+        let phase = Arc::new(AtomicUsize::new(0));
+        let acks = Arc::new(AtomicUsize::new(0));
+        let rounds = if o.thorough { 200_000 } else { 24_000 } / n;
+        let hs: Vec<_> = (0..n).map(|t| { let (a, phase, acks) = (a.clone(), phase.clone(), acks.clone()); std::thread::spawn(move || {
+            let l = Layout::from_size_align(16usize << (t % 8), 8).unwrap();
+            for r in 0..rounds {
+                wait_for(&phase, 2 * r + 1);
+                let p = unsafe { a.alloc(l) };
+                acks.fetch_add(1, SeqCst);
+                wait_for(&phase, 2 * r + 2);
+                if !p.is_null() { unsafe { a.dealloc(p, l) }; }
+                acks.fetch_add(1, SeqCst);
+            }
+        }) }).collect();
+        let total: usize = (0..n).map(|t| 16usize << (t % 8)).sum();
+        let mut bad = 0u64;
+        for r in 0..rounds {
+            a.reset_max();
+            phase.store(2 * r + 1, SeqCst);
+            wait_for(&acks, (2 * r + 1) * n);
+            let peak = a.get_max();
+            if peak < total { bad += 1; if bad <= 3 { cviol.push(serde_json::json!({"property":"C19","what":format!("concurrent: {} threads allocated {} bytes in total, all live, the peak says {} (round {})", n, total, peak, r)})); } }
+            phase.store(2 * r + 2, SeqCst);
+            wait_for(&acks, (2 * r + 2) * n);
+        }
+        for h in hs { h.join().unwrap(); }
+        cops += (rounds * n * 2) as u64;
+        cruns += 1;
     }
     // 3b. contention at the limit: every thread asks for more than half of the limit in a tight loop, so two
     //     grants can never be live together; the harness counts what is granted at the same time
